@@ -236,6 +236,18 @@ def c09_knn():
     return None if np.array_equal(idx, i0) and np.array_equal(dist, d0) else "fit wrote into the caller's precomputed_knn arrays"
 
 
+def c18_empty_contrast():
+    import umap
+    X = _rng(17).normal(size=(40, 3)).astype(np.float32)
+    A = umap.UMAP(n_neighbors=2, random_state=1, n_epochs=5).fit(X)
+    B = umap.UMAP(n_neighbors=12, random_state=2, n_epochs=5, local_connectivity=5.0).fit(X)
+    try:
+        R = A - B
+    except Exception as e:  # noqa
+        return f"A - B with every edge of A at full strength in B raised {type(e).__name__}"
+    return None if R.embedding_.shape == (40, 2) else f"embedding shape {R.embedding_.shape}"
+
+
 # ---------------------------------------------------------------- C12 / C13 / C14
 def c12_skl_mutates():
     import umap.distances as D
@@ -437,6 +449,7 @@ WITNESSES = {
     "C14:gaussian_energy_grad": c14_gaussian_energy,
     "C15:solver-misses-trivial-eigenpair": c15_trivial_missing,
     "C17:rad-emb-unsquared": c17_rad_emb,
+    "C18:empty-combined-graph": c18_empty_contrast,
     "C19:forward-into-last-dataset": c19_last_dataset,
     "C20:extra-columns-not-pruned": c20_prune,
 }
